@@ -24,48 +24,69 @@ def run(ctx: core.Ctx):
 
     rng = ctx.rng
     lines, refs = [], []
-    # ---- window logic, ungrouped
-    for k in range(ctx.budget(60, 600)):
+    # ---- window logic, ungrouped (time stamps as integer nanoseconds)
+    def ns(t):
+        return int(pd.Timestamp(t).value)
+
+    for k in range(ctx.budget(80, 800)):
         n = rng.choice([2, 3, 5, 9, 12, 36])
-        if rng.random() < 0.5:
+        axis_kind = rng.choice(["dekadal", "irregular-days", "12-hourly", "6-hourly", "daily-noon"])
+        if axis_kind == "dekadal":
             times = pd.date_range("2000-01-01", periods=n, freq="10D")
-        else:
+        elif axis_kind == "irregular-days":
             offs = sorted(rng.sample(range(0, 400), n))
             times = pd.DatetimeIndex([pd.Timestamp("2000-01-01") + pd.Timedelta(days=o) for o in offs])
-        tdays = [day(t) for t in times]
+        elif axis_kind == "12-hourly":
+            times = pd.date_range("2000-01-01", periods=n, freq="12h")
+        elif axis_kind == "6-hourly":
+            times = pd.date_range("2000-01-30", periods=n, freq="6h")
+        else:
+            times = pd.date_range("2000-01-01 12:00", periods=n, freq="1D")
+        tns = [ns(t) for t in times]
 
         def pick():
+            """(argument passed to spi, its meaning as a Timestamp) or (None, None)"""
             r = rng.random()
             if r < 0.15:
-                return None
-            if r < 0.55:
-                return times[rng.randrange(n)]
-            if r < 0.7:
-                return times[0] - pd.Timedelta(days=rng.randint(1, 30))
-            if r < 0.85:
-                return times[-1] + pd.Timedelta(days=rng.randint(1, 30))
-            return times[0] + pd.Timedelta(days=rng.randint(0, max(1, tdays[-1] - tdays[0])))
-        b, e = pick(), pick()
+                return None, None
+            if r < 0.5:
+                t = times[rng.randrange(n)]
+            elif r < 0.62:
+                t = times[0] - pd.Timedelta(hours=rng.randint(1, 700))
+            elif r < 0.74:
+                t = times[-1] + pd.Timedelta(hours=rng.randint(1, 700))
+            else:
+                t = times[0] + pd.Timedelta(hours=rng.randint(0, max(1, (tns[-1] - tns[0]) // 3600000000000)))
+            form = rng.choice(["date-string", "date-string", "timestamp-string", "month-string"])
+            if form == "date-string":
+                s_ = str(t.date())               # 'YYYY-MM-DD' means midnight of that day
+            elif form == "month-string":
+                s_ = f"{t.year:04d}-{t.month:02d}"   # 'YYYY-MM' means the first instant of the month
+            else:
+                s_ = str(t)
+            return s_, pd.Timestamp(np.datetime64(s_))
+        (bs, b), (es, e) = pick(), pick()
         data = np.array([[[float(rng.randint(1, 200)) for _ in range(1)] for _ in range(2)] for _ in range(n)])
         da = xr.DataArray(data, dims=("time", "y", "x"), coords={"time": times}, attrs={"nodata": -9999.0})
         kw = {}
-        if b is not None:
-            kw["calibration_begin"] = str(b.date())
-        if e is not None:
-            kw["calibration_end"] = str(e.date())
+        if bs is not None:
+            kw["calibration_begin"] = bs
+        if es is not None:
+            kw["calibration_end"] = es
         try:
             res = da.hdc.algo.spi(**kw)
             err = None
         except ValueError:
             res, err = None, "ValueError"
-        bi = "none" if b is None else day(b)
-        ei = "none" if e is None else day(e)
-        lines.append(f"spiwindow {core.iarr(tdays)} {bi} {ei}")
-        inside = [i for i, t in enumerate(tdays) if (b is None or t >= day(b)) and (e is None or t <= day(e))]
-        inp = dict(axis=[str(t.date()) for t in times], begin=None if b is None else str(b.date()), end=None if e is None else str(e.date()))
-        ctx.case((tuple(tdays), bi, ei), nontrivial=len(inside) >= 2, sample=dict(inp, steps_in_window=len(inside)))
+        bi = "none" if b is None else ns(b)
+        ei = "none" if e is None else ns(e)
+        lines.append(f"spiwindow {core.iarr(tns)} {bi} {ei}")
+        inside = [i for i, t in enumerate(tns) if (b is None or t >= ns(b)) and (e is None or t <= ns(e))]
+        inp = dict(axis=axis_kind, first=str(times[0]), last=str(times[-1]), n=n, begin=bs, end=es)
+        ctx.case((tuple(tns), bi, ei), nontrivial=len(inside) >= 2, sample=dict(inp, steps_in_window=len(inside)))
         ctx.count("window ok" if len(inside) >= 2 else "window invalid")
-        refs.append((inp, err, res, inside, tdays, times, data, b, e))
+        ctx.count("axis/" + axis_kind)
+        refs.append((inp, err, res, inside, tns, times, data, b, e))
         # oracle on the real code
         if len(inside) < 2:
             if err is None:
@@ -75,9 +96,7 @@ def run(ctx: core.Ctx):
             ctx.fail("spi", inp, err, f"window of {len(inside)} steps is valid")
             continue
         i0, i1 = inside[0], inside[-1]
-        if inside != list(range(i0, i1 + 1)):
-            continue
-        gi = get_calibration_indices(times, (b if b is not None else times[0], e if e is not None else times[-1]))
+        gi = get_calibration_indices(times, (bs if bs is not None else times[0], es if es is not None else times[-1]))
         if (int(gi[0]), int(gi[1])) != (i0, i1 + 1):
             ctx.fail("get_calibration_indices", inp, [int(gi[0]), int(gi[1])], [i0, i1 + 1], note="exactly the steps with begin <= t <= end, both inclusive")
         if res.attrs.get("spi_calibration_begin") != str(times[i0]) or res.attrs.get("spi_calibration_end") != str(times[i1]):
@@ -90,7 +109,7 @@ def run(ctx: core.Ctx):
     for (inp, err, res, inside, *_), a in zip(refs, ctx.driver.ask(lines)):
         if a.startswith("err") != (err is not None):
             ctx.disagree("R", "spi window", inp, a, err or "ok")
-        elif not a.startswith("err") and inside == list(range(inside[0], inside[-1] + 1)):
+        elif not a.startswith("err"):
             t = a.split()
             if (int(t[1]), int(t[2])) != (inside[0], inside[-1] + 1):
                 ctx.disagree("R", "spi window", inp, a, [inside[0], inside[-1] + 1])
